@@ -61,9 +61,16 @@ RHORHO = ("VV_same", "D0{rho(770)0{pi+,pi-},rho(770)0{pi+,pi-}}", "12_34", "DtoV
           [("rho(770)0", "RBW", 1), ("rho(770)0", "RBW", 1)], ["pi+", "pi-", "pi+", "pi-"])
 PHIRHO = ("VV_KKpipi", "D0[D]{phi(1020)0{K+,K-},rho(770)0{pi+,pi-}}", "12_34", "DtoV1V2_V1toP1P2_V2toP3P4_D", 2,
           [("phi(1020)0", "RBW", 1), ("rho(770)0", "RBW", 1)], ["K+", "K-", "pi+", "pi-"])
-EXTRA = [RHORHO, PHIRHO]
+# three identical particles (3! orderings); also with all four identical in the event type position pattern
+KSTAR3PI = ("VV_3pi", "D0{K*(892)bar0{K-,pi+},rho(770)0{pi+,pi+}}", "12_34", "DtoV1V2_V1toP1P2_V2toP3P4", 0,
+            [("K*(892)bar0", "RBW", 1), ("rho(770)0", "RBW", 1)], ["K-", "pi+", "pi+", "pi+"])
+A1_3PI = ("AVP_3pi", "D0{a(1)(1260)+{rho(770)0{pi+,pi+},pi+},K-}", "1_2_34", "DtoA1P1_A1toV2P2_V2toP3P4", 1,
+          [("a(1)(1260)+", "RBW", 0), ("rho(770)0", "RBW", 1)], ["pi+", "pi+", "pi+", "K-"])
+EXTRA = [RHORHO, PHIRHO, KSTAR3PI, A1_3PI]
 EXTRA_EVENTS = {"VV_same": [["pi+", "pi-", "pi+", "pi-"], ["pi+", "pi+", "pi-", "pi-"], ["pi-", "pi+", "pi+", "pi-"], ["pi+", "pi-", "pi-", "pi+"]],
                 "VV_KKpipi": [["K+", "K-", "pi+", "pi-"], ["pi+", "K+", "pi-", "K-"], ["K-", "K+", "pi-", "pi+"], ["pi-", "pi+", "K-", "K+"]]}
+_EV3 = [["K-", "pi+", "pi+", "pi+"], ["pi+", "K-", "pi+", "pi+"], ["pi+", "pi+", "pi+", "K-"], ["pi+", "pi+", "K-", "pi+"]]
+EXTRA_EVENTS.update({"VV_3pi": _EV3, "AVP_3pi": _EV3})
 EVENT_TYPES = [["K-", "pi+", "pi+", "pi-"], ["pi+", "K-", "pi+", "pi-"], ["pi-", "pi+", "K-", "pi+"], ["pi+", "pi+", "pi-", "K-"]]
 COUPLINGS = [("2", "1", "0", "2", "0", "0"), ("0", "0.5", "0.1", "0", "1.5", "0.2"), ("0", "-0.3", "0.01", "2", "0.7", "0.0")]
 PARAMS = """a(1)(1260)+::Spline::Min 0.18412
